@@ -109,8 +109,71 @@ func H_C10_leader() {
 		}
 		assert(found, "follower told")
 	}
-	time.Sleep(5 * time.Second) // second round: nothing changed
-	assert(len(bus.published) == 1, "an unchanged numbering is not announced again")
+	// between the rounds the follower set stays, grows, shrinks, or changes composition at the same size
+	change := 0
+	if n <= 3 {
+		change = choose("change", 4) // larger follower sets (thorough tier) only re-run the round unchanged
+	}
+	type vf struct {
+		name string
+		jt   int64
+	}
+	cur := []vf{}
+	for i := 0; i < n; i++ {
+		cur = append(cur, vf{names[i], jt[i]})
+	}
+	switch change {
+	case 1, 3:
+		if change == 3 {
+			assume(n > 0)
+			victim := choose("victim", n)
+			sd.Remove(names[victim])
+			cur = append(cur[:victim:victim], cur[victim+1:]...)
+			cover("replaced")
+		} else {
+			cover("joined")
+		}
+		njt := nondetI64("join.new")
+		for _, c := range cur {
+			assume(njt > c.jt) // a newly started instance joins after the ones already there
+		}
+		nf := &vFollower{name: "new", log: &log}
+		sd.Add(NewService(nf, "new", njt))
+		cur = append(cur, vf{"new", njt})
+	case 2:
+		assume(n > 0)
+		victim := choose("victim", n)
+		sd.Remove(names[victim])
+		cur = append(cur[:victim:victim], cur[victim+1:]...)
+		cover("left")
+	}
+	round1 := len(log)
+	time.Sleep(5 * time.Second) // second round
+	if len(cur) == n {
+		assert(len(bus.published) == 1, "an unchanged group size is not announced again")
+	} else {
+		assert(len(bus.published) == 2 && bus.published[1].MemberNumber == 1 && bus.published[1].TotalMembers == len(cur)+1, "a changed group size is announced once")
+	}
+	// within one round every current follower holds its number in join order: a new
+	// instance is admitted, the survivors of a death move up
+	assert(len(log)-round1 == len(cur), "every current follower is told its number in the next round")
+	for i, c := range cur {
+		r := 0
+		for _, o := range cur {
+			if o.jt < c.jt {
+				r++
+			}
+		}
+		found := false
+		for _, call := range log[round1:] {
+			if call.name == c.name {
+				found = true
+				assert(call.member == r+2 && call.total == len(cur)+1, "after a change followers are numbered 2..n+1 in join order again")
+			}
+		}
+		assert(found, "follower told after the change")
+		_ = i
+	}
 	sd.StopMonitor()
 	setHorizon(nowNs() + int64(time.Minute))
 	quiesce()
